@@ -8,7 +8,7 @@ CONSTANTS
   Sse = TRUE
   Nested = FALSE
   Faults = {"cut"}
-  DelModes = {"hold"}
+  DelModes = {}
   Helds = TRUE
   Notifs = FALSE
   Cancels = FALSE
